@@ -20,7 +20,7 @@ MUST_REACH = ["accept", "reject", "short-reject", "long-accept", "gw-reject"]
 CLASS_TEXTS = [("", None), ("abc", None), ("1.0", None), (" ", None), ("0x1", None), ("1e2", None),
                ("٣", 3), (" 7", 7), ("1_0", 10), ("+5", 5),
                # other spellings of boundary values: the cross-field rules must look at the decoded value
-               ("0255", 255), ("+255", 255), (" 255", 255), ("2_5_5", 255), ("03", 3), ("+4", 4), ("01", 1), ("00", 0)]
+               ("²", None), ("0255", 255), ("+255", 255), (" 255", 255), ("2_5_5", 255), ("03", 3), ("+4", 4), ("01", 1), ("00", 0)]
 TERMS = ["\n", "", "\r\n"]
 
 
